@@ -230,6 +230,80 @@ theorem classify_owners_modelled :
     (Generated.ResolverTable.table.all fun row => row.2.all fun c => modelledOwners.contains c.2) = true := by
   decide +kernel
 
+/-- **The model's `match_feature`s compare with the code's constants.** The string constants of every `match_feature`
+    (and of `Function._in_class_block`), as translate/gen_match_features.py reads them off node.py / definition/*.py on
+    every run (the logic around them is pinned there by skeleton digests), are exactly the tags and words the hand-written
+    predicates of `Model/Classify.lean` compare with — re-decided whenever a tag or word of the code changes. -/
+theorem match_feature_consts :
+    Generated.MatchFeatures.consts = [
+      (c!"AltTypesName.match_feature", []), (c!"ArgumentLabel.match_feature", [c!"argvalue"]),
+      (c!"CallableType.match_feature", [c!"typed_slices"]),
+      (c!"ClassMethod.match_feature", [c!"decorators", c!"decorators", c!"classmethod"]),
+      (c!"ClassRef.match_feature", [c!"cls"]),
+      (c!"Closure.match_feature", [c!"class_def_raw", c!"function_def_raw", c!"class_def_raw"]),
+      (c!"Constructor.match_feature", [c!"function_def_raw.name", c!"__init__"]),
+      (c!"CustomType.match_feature", []), (c!"DeclClassParam.match_feature", []), (c!"DeclClassVar.match_feature", []),
+      (c!"DeclLocalVar.match_feature", []), (c!"DeclParam.match_feature", []), (c!"DeclThisParam.match_feature", []),
+      (c!"DeclThisVar.match_feature", []), (c!"DeclThisVarForward.match_feature", []),
+      (c!"DecoratorPath.match_feature", [c!"decorator"]), (c!"DictType.match_feature", [c!"dict"]),
+      (c!"DocString.match_feature", [c!"block", c!"\"\"\"", c!"\"\"\""]),
+      (c!"Enum.match_feature", [c!"class_def_raw.inherit_arguments", c!"class_def_raw.inherit_arguments", c!"Enum"]),
+      (c!"Float.match_feature", [c!"number", c!"FLOAT_NUMBER"]),
+      (c!"Function._in_class_block", [c!"class_def_raw"]),
+      (c!"ImportName.match_feature", []), (c!"ImportPath.match_feature", [c!"import_stmt"]),
+      (c!"Integer.match_feature", [c!"number", c!"DEC_NUMBER", c!"HEX_NUMBER"]),
+      (c!"ListType.match_feature", [c!"list"]),
+      (c!"Method.match_feature", [c!"function_def_raw.name", c!"__init__", c!"function_def_raw.parameters", c!"function_def_raw.parameters"]),
+      (c!"Node.match_feature", []), (c!"Relay.match_feature", []), (c!"Super.match_feature", [c!"super"]),
+      (c!"Terminal.match_terminal", []), (c!"ThisRef.match_feature", [c!"self"]), (c!"TypesName.match_feature", [])] := by
+  decide +kernel
+
+/-- every class whose `match_feature` the code defines is an owner the model implements, and conversely -/
+theorem match_feature_owners :
+    ((Generated.MatchFeatures.consts.map (·.1)).filter (fun k => Str.endsWith k c!".match_feature")).map (fun k => k.take (k.length - 14))
+      = [c!"AltTypesName", c!"ArgumentLabel", c!"CallableType", c!"ClassMethod", c!"ClassRef", c!"Closure", c!"Constructor", c!"CustomType",
+        c!"DeclClassParam", c!"DeclClassVar", c!"DeclLocalVar", c!"DeclParam", c!"DeclThisParam", c!"DeclThisVar", c!"DeclThisVarForward",
+        c!"DecoratorPath", c!"DictType", c!"DocString", c!"Enum", c!"Float", c!"ImportName", c!"ImportPath", c!"Integer", c!"ListType",
+        c!"Method", c!"Node", c!"Relay", c!"Super", c!"ThisRef", c!"TypesName"]
+    ∧ (modelledOwners.all fun o => (Generated.MatchFeatures.consts.map (·.1)).contains (o ++ c!".match_feature")) = true
+    ∧ ((Generated.MatchFeatures.consts.map (·.1)).filter (fun k => Str.endsWith k c!".match_feature")).length = modelledOwners.length := by
+  decide +kernel
+
+/-- **The words the classification goes by are the code's words, compared by equality.** Each name-dependent predicate of the
+    model, for every input, is the comparison of the node text with the word generated from the code: membership of
+    `classmethod` in the list of decorator names (not a substring of one), equality of the def name with `__init__`, of
+    the first parameter / a `var` text with `self` / `cls`, of the callee with `super`, of the type name with `list` /
+    `dict`, membership of `Enum` in the list of base names whatever their number. -/
+theorem match_feature_words :
+    (∀ f, isClassMethod f = f.decorators.contains (constAt c!"ClassMethod.match_feature" 2))
+    ∧ (∀ f, isConstructor f = (inClassBlock f && f.name == constAt c!"Constructor.match_feature" 1))
+    ∧ (∀ f, isMethod f = (inClassBlock f && (f.name != constAt c!"Method.match_feature" 1 && f.firstParam == some Generated.DeclMatchers.selfParamWord)))
+    ∧ (∀ f, inClassBlock f = (fromEnd f.tags 3 == some (constAt c!"Function._in_class_block" 0)))
+    ∧ (∀ root p e, matchFeature c!"ClassRef" root p e = .ok ((nameFeat root p e).tokens == constAt c!"ClassRef.match_feature" 0))
+    ∧ (∀ root p e, matchFeature c!"ThisRef" root p e = .ok ((nameFeat root p e).tokens == constAt c!"ThisRef.match_feature" 0))
+    ∧ (∀ root p e c, e.children.head? = some c →
+        matchFeature c!"Super" root p e = .ok (tokens c == constAt c!"Super.match_feature" 0)
+        ∧ matchFeature c!"ListType" root p e = .ok (tokens c == constAt c!"ListType.match_feature" 0)
+        ∧ matchFeature c!"DictType" root p e = .ok (tokens c == constAt c!"DictType.match_feature" 0)) := by
+  have h1 : constAt c!"ClassMethod.match_feature" 2 = c!"classmethod" := by decide +kernel
+  have h2 : constAt c!"Constructor.match_feature" 1 = c!"__init__" := by decide +kernel
+  have h3 : constAt c!"Method.match_feature" 1 = c!"__init__" := by decide +kernel
+  have h4 : constAt c!"Function._in_class_block" 0 = c!"class_def_raw" := by decide +kernel
+  have h5 : constAt c!"ClassRef.match_feature" 0 = c!"cls" := by decide +kernel
+  have h6 : constAt c!"ThisRef.match_feature" 0 = c!"self" := by decide +kernel
+  have h7 : constAt c!"Super.match_feature" 0 = c!"super" := by decide +kernel
+  have h8 : constAt c!"ListType.match_feature" 0 = c!"list" := by decide +kernel
+  have h9 : constAt c!"DictType.match_feature" 0 = c!"dict" := by decide +kernel
+  have h10 : Generated.DeclMatchers.selfParamWord = c!"self" := by decide +kernel
+  rw [h1, h2, h3, h4, h5, h6, h7, h8, h9, h10]
+  refine ⟨fun _ => rfl, fun _ => rfl, fun _ => rfl, fun _ => rfl, fun _ _ _ => rfl, fun _ _ _ => rfl, ?_⟩
+  intro root p e c hc
+  refine ⟨?_, ?_, ?_⟩ <;> simp +decide [matchFeature, hc]
+
+/-- non-vacuity of `match_feature_words`: the words tell names apart that contain one another -/
+example : isClassMethod ⟨[c!"not_a_classmethod", c!"hooks.classmethods.register"], c!"f", some c!"cls", []⟩ = false
+    ∧ isClassMethod ⟨[c!"deco", c!"classmethod"], c!"f", none, []⟩ = true := by decide +kernel
+
 /-- the candidate orders the decision functions hard-code are the registered ones -/
 theorem classify_rows :
     rowOf c!"function_def" = some [(c!"ClassMethod", c!"ClassMethod"), (c!"Constructor", c!"Constructor"),
